@@ -29,3 +29,18 @@ def c13(ctx):
         s = ctx.session(fl)
         r = s.run_seq('c13_wrap_seq', covers=[1])
         ctx.add(tag(r, mode='M1', flavor=fl, sample={'scenario': 'c13_wrap_seq', 'generation': 'symbolic', 'paths': r['paths']}))
+
+
+def conc_run(ctx, spec, flavor='rel', features=(), **kw):
+    import conc
+    s = ctx.session(flavor, features)
+    r = conc.run_conc(s, spec, **kw)
+    return ctx.add(tag(r, flavor=flavor, features=features))
+
+
+@prop('C01')
+def c01(ctx):
+    ctx.bounds.update({'threads': 2, 'ops_per_thread': 1, 'loop_bound_symbolic_iterations': 4, 'memory_model': 'SC'})
+    conc_run(ctx, {'name': 'basic', 'setup': 'basic_setup',
+                   'threads': [('basic_warm', 'basic_reader'), ('basic_warm', 'basic_writer')], 'covers': []},
+             loop_bound=4)
